@@ -12,8 +12,8 @@ UNITS = [dict(
 )]
 UNITS.append(dict(
     name='exec', harness='harness/c20_args.cpp', sources=SRC, native=False,
-    defines={'quick': {}, 'thorough': {}}, entries=['exec_args'],
-    opts={'all': {'unwind': 64, 'max_instr': 300000, 'check_leaks': False, 'overrides': {'vfork': 'vf_vfork', 'execvpe': 'vf_execvpe'}}},
+    defines={'quick': {}, 'thorough': {}}, entries=['exec_args', 'exit_code'],
+    opts={'all': {'unwind': 64, 'max_instr': 300000, 'check_leaks': False, 'overrides': {'vfork': 'vf_vfork', 'execvpe': 'vf_execvpe', '_exit': 'vf_exit_check'}}},
     split={'quick': 4, 'thorough': 4}, budget={'quick': 120, 'thorough': 120}, validate=[],
 ))
 BOUNDS = {
